@@ -48,8 +48,16 @@ Section Sim.
     | XE id => match sem id [] with Some v => v | None => default_val (g_ty g) end
     | _ => default_val (g_ty g)
     end.
+  (* a global whose first assignment has not run yet (in this pass): one with a constant initialiser holds that value;
+     one with the default initialiser is bound at its type - to the default value before its first assignment ever, to
+     the value of the previous pass when it is first assigned inside the main loop *)
+  Definition pend_at (g : gdecl) (o : option (ty * val)) : Prop :=
+    match g_init g with
+    | XE _ => o = Some (g_ty g, pend_val g)
+    | _ => exists u, o = Some (g_ty g, u)
+    end.
   Definition Pend (gs : list gdecl) (sg : StmtSem.cstore) : Prop :=
-    forall g, In g gs -> tlookup (g_name g) sg = Some (g_ty g, pend_val g).
+    forall g, In g gs -> pend_at g (tlookup (g_name g) sg).
   Definition const_ok (g : gdecl) : Prop :=
     match g_init g with
     | XE id => exists v, sem id [] = Some v /\ has_ty (g_ty g) v = true /\ forall s0, cev id s0 = Some v
@@ -201,8 +209,9 @@ Section Sim.
         constructor; [|exact C1]. unfold const_ok. cbn. exists v. split; [exact Hs0|]. split; [exact Hv|].
         intro s0. unfold StmtSem.cev. destruct (Hinfo e Hin) as (b & Hb & Hfb). rewrite Hb, Hfb, Hfv0. exact Hs0.
       + (* run-time initialiser *)
-        assert (Hg : tlookup x sgc = Some (a_ty e, default_val (a_ty e))).
+        assert (Hg : exists u0, tlookup x sgc = Some (a_ty e, u0)).
         { exact (HP g (or_introl eq_refl)). }
+        destruct Hg as [u0 Hg].
         destruct (cupd_spec (x :: xr) x v sgc _ _ Hg) as (b & Hb & L1 & L2 & HF).
         { cbn. rewrite text_eqb_refl. reflexivity. }
         rewrite (conv_has_ty _ _ Hv) in L1.
@@ -377,26 +386,29 @@ Section Sim.
           destruct top; [|discriminate]. destruct (is_tmp x) eqn:Hxt; [discriminate|]. cbn [andb negb] in HS.
           inversion HS; subst D1. clear HS.
           destruct lm.
-          { (* main-loop body: a local of loop(), declared in place *)
+          { (* main-loop body: a global with the default initialiser, assigned in place on every pass *)
             rewrite (trm_cons_newl ret k D x e rest Hl) in HP |- *. cbn [fst snd] in HP |- *.
-            set (s1 := (x, (a_ty e, v)) :: sg).
-            assert (HR1 : Rel (D ++ [(x, a_ty e)]) L (pset x v rho) s1).
-            { eapply Rel_set; [exact HR|apply set_new; exact Hl|exact HxL|exact Hv| |].
-              - unfold s1. cbn [tlookup]. rewrite text_eqb_refl. reflexivity.
-              - intros y Hy. unfold s1. cbn [tlookup]. apply text_eqb_neq in Hy. rewrite Hy. reflexivity. }
-            destruct (IH rest ret k true true gf' _ L D' _ s1 rho2 e2 o2 Htr HG Han2 Hau2 HNT1 HR1) as (loc & sgr & F2 & C2 & Fr2 & R2' & _ & N2);
-              [intros g []|exact Er|].
-            destruct (Fr_cons_inv' _ _ _ _ Fr2) as (q & sg2 & -> & Hq & Fr2').
-            exists (loc ++ [q]), sg2, (S F2). split; [|split; [|split; [|split]]].
-            - intros F' HF'. destruct F' as [|F'']; [lia|]. rewrite cexec_decl. cbn [ceval]. rewrite Hc.
-              rewrite (conv_has_ty _ _ Hv). cbn [ccont]. fold s1. rewrite C2 by lia.
-              rewrite <- app_assoc. reflexivity.
-            - cbn [wr_in]. apply Fr_app_r. exact Fr2'.
-            - eapply Rel_drop; [exact R2'|apply ext_snoc| |].
-              + rewrite Hq. cbn [fst]. eapply tlookup_dom_false; eauto.
-              + rewrite Hq. cbn [fst]. exact HxL.
-            - discriminate.
-            - intro Ho. destruct (N2 Ho) as [N21 N22]. rewrite <- app_assoc. split; [exact N21|constructor]. }
+            set (g := {| g_name := x; g_ty := a_ty e; g_init := XDefault (a_ty e) |}) in *.
+            assert (Hg : exists u0, tlookup x sg = Some (a_ty e, u0)).
+            { exact (HP g (or_introl eq_refl)). }
+            destruct Hg as [u0 Hg].
+            destruct (cupd_spec (wr (PAssign x e)) x v sg _ _ Hg) as (b & Hb & L1 & L2 & HF).
+            { cbn. rewrite text_eqb_refl. reflexivity. }
+            rewrite (conv_has_ty _ _ Hv) in L1.
+            change (NAssign x (XE (a_id e)) :: fst (trm ret k true true (D ++ [(x, a_ty e)]) rest))
+              with ([NAssign x (XE (a_id e))] ++ fst (trm ret k true true (D ++ [(x, a_ty e)]) rest)).
+            change (g :: snd (trm ret k true true (D ++ [(x, a_ty e)]) rest))
+              with ([g] ++ snd (trm ret k true true (D ++ [(x, a_ty e)]) rest)).
+            eapply (sim_tail f IH ret _ true true gf' D (D ++ [(x, a_ty e)]) L D' (pset x v rho) sg b (PAssign x e) rest
+                   [NAssign x (XE (a_id e))] [g] [] 0%nat rho2 e2 o2 HNT1);
+            [exact Htr|exact HG|exact Han2|exact Hau2| | | | | | | |exact Er].
+            - apply ext_snoc.
+            - eapply Rel_set; [exact HR|apply set_new; exact Hl| | | |]; eauto.
+            - intros g' Hg'. apply HP. right. exact Hg'.
+            - exact HF.
+            - exact HWD.
+            - intros F' restC _. cbn [app]. rewrite cexec_assign. cbn [ceval]. rewrite Hc, Hb. reflexivity.
+            - constructor; [|constructor]. unfold const_ok. cbn. reflexivity. }
           rewrite (trm_cons_new ret k D x e rest Hl) in *.
           destruct (closed_const e) eqn:Hcc; cbn [fst snd] in *.
           -- (* constant initialiser: no node *)
@@ -421,8 +433,9 @@ Section Sim.
                 intro s0. unfold StmtSem.cev. destruct (Hinfo e Hin) as (b & Hb & Hfb). rewrite Hb, Hfb, Hfv0. exact Hs0.
           -- (* run-time initialiser: global with default value + assignment *)
              set (g := {| g_name := x; g_ty := a_ty e; g_init := XDefault (a_ty e) |}) in *.
-             assert (Hg : tlookup x sg = Some (a_ty e, default_val (a_ty e))).
+             assert (Hg : exists u0, tlookup x sg = Some (a_ty e, u0)).
              { exact (HP g (or_introl eq_refl)). }
+             destruct Hg as [u0 Hg].
              destruct (cupd_spec (wr (PAssign x e)) x v sg _ _ Hg) as (b & Hb & L1 & L2 & HF).
              { cbn. rewrite text_eqb_refl. reflexivity. }
              rewrite (conv_has_ty _ _ Hv) in L1.
@@ -493,7 +506,8 @@ Section Sim.
           { intros g Hg. rewrite tlookup_skip_tmps; [| exact HTm |].
             - eapply Pend_frame; [exact HP|exact F1| |exact Hg]. intros g0 Hg0. eapply fresh_not_written; [|exact Hg0].
               intros y Hy. apply (Hdom y Hy).
-            - destruct top; [|destruct Hg]. destruct lm; [destruct Hg|]. eapply trt_names_nt; [exact HG|exact Hg]. }
+            - destruct top; [|destruct Hg]. destruct lm; [|eapply trt_names_nt; [exact HG|exact Hg]].
+              eapply trl_names_nt; [|exact HG|exact Hg]. cbn [implb] in Htr. exact Htr. }
           destruct (IH rest ret _ top lm gf' D L D' _ (Tm ++ sg1) rho2 e2 o2 Htr HG Han2 Hau2 HNT (Rel_tmps _ _ _ _ _ HNT HTm R1) HP1 Er)
             as (loc & sgX & F2 & C2 & Fr2 & R2 & L2 & N2).
           destruct (Fr_app_inv _ _ _ _ Fr2) as (TmX & sg' & -> & FrT & FrS).
